@@ -51,6 +51,17 @@ type c08Case struct {
 	Spec  entrySpec `json:"spec"`
 	Codec string    `json:"codec"`
 	What  string    `json:"what"`
+	// Index > 0: the case is entry number Index-1 of the grammar pass of Tier, which runs sequentially in a fixed
+	// order; the replay re-runs the pass up to and including it, because a codec may carry state from one
+	// decode to the next (a pooled decode target, a cache) and the failure then depends on what was decoded before
+	Index int    `json:"index,omitempty"`
+	Tier  string `json:"tier,omitempty"`
+}
+
+// c08Seq is the position in the sequential pass (set by c08Run around each c08One call; 0 outside it)
+var c08Seq struct {
+	index int
+	tier  string
 }
 
 func eqCids(a, b []cid.Cid) bool {
@@ -120,7 +131,7 @@ func c08One(p *run.Part, spec entrySpec, codec string) (cidStr string) {
 		io = linkKeyIO("K1")
 	}
 	viol := func(key, what string) {
-		p.Violate("roundtrip", "C08:"+codec+":"+key, fmt.Sprintf("%s codec, entry %s: %s", codec, spec, what), c08Case{Spec: spec, Codec: codec, What: key})
+		p.Violate("roundtrip", "C08:"+codec+":"+key, fmt.Sprintf("%s codec, entry %s: %s", codec, spec, what), c08Case{Spec: spec, Codec: codec, What: key, Index: c08Seq.index, Tier: c08Seq.tier})
 	}
 	e, err := spec.build(st, io)
 	p.Add(1, 1, 0, 1)
@@ -339,14 +350,17 @@ func c08Run(p *run.Part, tier string) {
 	dl := Budget(tier)
 	expired := false
 	cids := make([]string, len(g))
-	parallelFor(len(g), func(i int) {
+	// sequential and in a fixed order: an order-dependent failure must be replayable
+	for i := range g {
 		if dl.Expired() {
 			expired = true
-			return
+			break
 		}
+		c08Seq.index, c08Seq.tier = i+1, tier
 		cids[i] = c08One(p, g[i], "default")
 		c08One(p, g[i], "linkkey")
-	})
+	}
+	c08Seq.index = 0
 	if expired {
 		p.Inexhaustive("deadline")
 	}
@@ -601,6 +615,16 @@ func init() {
 		case c.What == "manifest" || c.What == "process" || c.What == "collision":
 			c08Run(p, "quick")
 		default:
+			if c.Index > 0 {
+				g := grammar(c.Tier)
+				for i := 0; i < c.Index && i < len(g); i++ {
+					c08Seq.index, c08Seq.tier = i+1, c.Tier
+					c08One(p, g[i], "default")
+					c08One(p, g[i], "linkkey")
+				}
+				c08Seq.index = 0
+				return
+			}
 			c08One(p, c.Spec, c.Codec)
 		}
 	}})
